@@ -78,7 +78,7 @@ def main(prop, path):
     print("replay of %s: %s" % (prop, json.dumps(meta)[:600]))
     print("recorded verdict: %s" % json.dumps(data.get("verdict"))[:600])
     script = meta.get("script")
-    if "universe" in data and script and meta.get("backend") and all(op[0] in ("submit", "drain", "writer", "gc", "get", "delete", "query") for op in script):
+    if "universe" in data and script and meta.get("backend") and all(op[0] in ("submit", "drain", "writer", "gc", "get", "http", "delete", "query") for op in script):
         from . import pool, trace
 
         uni = _UniFromFile(data["universe"])
